@@ -8,6 +8,7 @@ import (
 	"github.com/basecomplextech/baselibrary/status"
 	"github.com/basecomplextech/spec/proto/pmpx"
 	"github.com/basecomplextech/spec/zzverif/vexp"
+	"github.com/basecomplextech/spec/zzverif/vnet"
 	"github.com/basecomplextech/spec/zzverif/vsched"
 )
 
@@ -71,6 +72,75 @@ func vBatchOpenClose(id bin.Bin128, data []byte) pmpx.Message {
 		panic(err)
 	}
 	return m
+}
+
+// O1: open frames still sitting in the read buffer when the connection is torn down because the SEND loop failed
+// first (the peer sent a burst of opens and went away; the first handler's reply hits a dead socket).
+func init() {
+	vexp.Register(&vexp.Scenario{
+		Name: "c20.O1.opens-buffered-when-send-loop-fails", Prop: "C20", Also: []string{"C09"}, MaxSteps: 200000,
+		Bounds: func(thorough bool) vexp.Bounds {
+			if thorough {
+				return vexp.Bounds{P: 2, F: -1, E: 0}
+			}
+			return vexp.Bounds{P: 1, F: -1, E: 0}
+		},
+		Configs: func(thorough bool) []map[string]int {
+			return []map[string]int{{"opens": 2, "rbuf": 4096}, {"opens": 3, "rbuf": 4096}, {"opens": 3, "rbuf": 16}}
+		},
+		Doc: "real server connection (server.handle) against a scripted peer: handshake, then a burst of 2..3 channel opens in one write, then the peer closes its socket; the first handler replies at once, so the send loop fails on the dead socket and the connection is torn down while the receive loop may still be parsing opens from its buffer: every handler that was started must see its context cancelled and return, each exactly once",
+		Body: func(x *vexp.Ctx) {
+			vFreshGlobals()
+			nopen := x.P("opens", 2)
+			started := map[uint64]int{}
+			returned := map[uint64]int{}
+			var ctxs []Context
+			handler := HandleFunc(func(ctx Context, ch Channel) status.Status {
+				id := ch.(*channel).unwrap().id[1].Uint64()
+				started[id]++
+				ctxs = append(ctxs, ctx)
+				defer func() { returned[id]++ }()
+				if id == 1 {
+					ch.Send(ctx, []byte("reply")) // reaches the dead socket
+				}
+				vsched.Recv(ctx.Wait())
+				return status.OK
+			})
+			log := newVLogger()
+			srv := newServer("vnet", handler, log, vOpts(x))
+			peer, sconn := vnet.Pair("peer", "srv")
+			peer.Decisions, sconn.Decisions = false, false
+			peer.Write(append([]byte(ProtocolLine), vConnectReq([]pmpx.Version{10}, nil)...))
+			srv.handle(sconn)
+			vsched.WaitIdle("handshake done")
+			var burst []byte
+			for i := 1; i <= nopen; i++ {
+				burst = append(burst, vFrame4(vMsgBytes(vOpen(bin.Int128(0, int64(i)), []byte("x"), 1024)))...)
+			}
+			peer.Write(burst)
+			peer.Close()
+			vsched.WaitIdle("connection torn down")
+			for id, n := range started {
+				if n != 1 {
+					x.Fail("handler invoked more than once for one channel", "channel %d: %d invocations", id, n)
+				}
+				if returned[id] != 1 {
+					x.Fail("handler not released after the connection was lost", "channel %d: started %d, returned %d", id, n, returned[id])
+				}
+			}
+			for i, c := range ctxs {
+				if !c.Done() {
+					x.Fail("handler context not cancelled after the connection was lost", "handler #%d of %d", i, len(ctxs))
+				}
+			}
+			for _, e := range log.Errors {
+				if contains(e, "panic") {
+					x.Fail("panic logged: "+errSig(e), "%s", e)
+				}
+			}
+			x.Outcome = fmt.Sprintf("handlers-started=%d", len(started))
+		},
+	})
 }
 
 func init() {
